@@ -2,6 +2,7 @@
 import os, sys, json, random
 from vlib import *
 import overlay_common as oc
+import overlay_audit as oa
 
 PROP = 'C11'
 
@@ -84,8 +85,11 @@ def analyse(cases, obs, bindir, tag, findings, broken, stats):
         elif any('view' in b and b['view'] != b.get('restart') for b in ob['ops']):
             relocate.append(i); pred_fail.add(i)
         for (k, q, bad, before, node) in copy_up_findings(c, ob)[:1]:
+            sig = {'class': 'copy-up', 'what': bad}
+            if bad == 'permission bits' and node[0] == 'd' and before[0] == 'd' and (before[1] & 0o6000) and node[1] == (before[1] & 0o1777):
+                sig = {'class': 'copy-up-dir-drops-setid-bits'}      # mkdir(2) keeps 01777 only
             findings.append({'what': 'copy-up of %s during %s %s did not preserve its %s' % (q, c['ops'][k]['k'], c['ops'][k]['p'], bad),
-                             'sig': {'class': 'copy-up', 'what': bad}, 'input': oc.replay_input(c, k), 'before': before, 'in_upper': node})
+                             'sig': sig, 'input': oc.replay_input(c, k), 'before': before, 'in_upper': node})
             stats['copyups_bad'] += 1
             pred_fail.add(i)
     if relocate:
@@ -132,6 +136,19 @@ def run_check(tier, seed):
         cases = [c for c in cases]
         if badh: broken.append({'kind': 'harness', 'name': 'harness output incomplete or layers not materialised as generated', 'cases': badh[:5]})
         analyse(cases, obs, bindir, 'a', findings, broken, stats)
+        # deterministic blocks of the coverage audit (props/overlay_audit.py): entry points / request fields / cells without
+        # a model operation are judged by restart = live and untouched lowers; configuration cells go through the model
+        free = oa.free_cases(PROP, True)
+        fobs = oc.run_harness(free, bindir, 'c11f')
+        f2, b2 = oa.analyse_free(PROP, free, fobs)
+        findings.extend(f2); broken.extend(b2)
+        stats['restarts'] += sum(len(c['ops']) + 1 for c in free); stats['evals'] += sum(len(c['ops']) + 1 for c in free)
+        cells = oa.cell_cases(PROP, True, full=(tier == 'thorough'), cells=(None if tier == 'thorough' else ['wdkx', 'm'])) + oa.bigdir_cases(PROP, True)
+        cobs = oc.run_harness(cells, bindir, 'c11g')
+        good = [c for c in cells if cobs.get(c['id']) and cobs[c['id']].get('done') and not cobs[c['id']]['flags'] and len(cobs[c['id']]['ops']) == len(c['ops'])
+                and all(oc.ser(t) == cobs[c['id']]['raw'].get(k) for k, t in c['layers'].items())]
+        if len(good) != len(cells): broken.append({'kind': 'harness', 'name': 'audit block: harness output incomplete or layers not materialised'})
+        analyse(good, cobs, bindir, 'g', findings, broken, stats)
         if broken and not [f for f in findings if not finding_known(f, known_findings(PROP))]:
             cases2, obs2, _ = oc.explore(PROP, seed + 104729, n * 4, True, bindir, 'c11x', with_corpus=False)
             analyse(cases2, obs2, bindir, 'b', findings, [], stats)
